@@ -342,10 +342,13 @@ func retryAfterValues(thorough bool) []string {
 		"1999-10-12T07:20:50.52Z",          // RFC3339 (extension), past
 		"2000-01-01T00:10:00Z",             // RFC3339 (extension), +600 s
 		"15s", "soon", " 1", "1.5",
+		// dates inside the second in which the bubble's clock starts: with the clock 0.5 s into that second (the "mid-second"
+		// jobs) they are in the past by less than a second
+		"Sat, 01 Jan 2000 00:00:00 GMT", "2000-01-01T00:00:00.4Z", "2000-01-01T00:00:00.6Z",
 	}
 	if thorough {
 		v = append(v, "00", "0x10", "+5", "3600", "9223372035", "9223372038", "18446744073", "36893488148", "99999999999999999999999",
-			"Sat, 01 Jan 2000 00:00:00 GMT", "Mon, 01 Jan 0001 00:00:00 GMT", "Sat, 01 Jan 2000 00:00:01 UTC", "2000-01-01T00:00:00.000000001Z")
+			"Mon, 01 Jan 0001 00:00:00 GMT", "Sat, 01 Jan 2000 00:00:01 UTC", "2000-01-01T00:00:00.000000001Z")
 	}
 	return v
 }
@@ -446,7 +449,7 @@ func runPartB(t *testing.T, rep *ev.Reporter, thorough bool) partBResult {
 		kind   string
 		honour bool
 		mi, xi int
-		seed   int
+		seed   int // > 0: the clock is that many nanoseconds past the bubble's epoch; -1: half a second past it ("mid-second")
 	}
 	var jobs []job
 	for _, k := range []string{kLinear, kExponential, kConstant} { // the expensive ones first
@@ -459,6 +462,9 @@ func runPartB(t *testing.T, rep *ev.Reporter, thorough bool) partBResult {
 					}
 					for s := 0; s < nseeds; s++ {
 						jobs = append(jobs, job{k, h, mi, xi, s})
+					}
+					if h {
+						jobs = append(jobs, job{k, h, mi, xi, -1})
 					}
 				}
 			}
@@ -489,6 +495,9 @@ func runPartB(t *testing.T, rep *ev.Reporter, thorough bool) partBResult {
 							s := j.seed
 							if s > 0 {
 								time.Sleep(time.Duration(s)) // moves the jitter seed; the dates' expected values follow the clock
+							}
+							if s < 0 {
+								time.Sleep(500 * time.Millisecond)
 							}
 							now := time.Now()
 							evalOne := func(c waitCase, prev *time.Duration) {
